@@ -34,6 +34,7 @@ func init() {
 			kvInsertIntoWritableHead(r)
 			kvEntrySizeFormula(r)
 			c20ClosedFragmentCompactionDone(r)
+			c11IdleTableRemovedByItsOwnIndex(r)
 		},
 	})
 }
